@@ -656,6 +656,9 @@ class SavableFuture(futures.Future, Savable):
         if state == asyncio.futures._FINISHED:  # type: ignore
             obj = cls(loop=loop)
             result = saved_state['_result']
+            if Savable._get_meta_type(saved_state, '_result') == META__TYPE__SAVABLE:
+                # The future was resolved with something that is itself a Savable: saved as its state, so load it back
+                result = Savable.load(result, load_context)
 
             try:
                 exception = saved_state['exception']
